@@ -445,6 +445,10 @@ class spawn(SpawnBase):
         select.poll() to implement the timeout. '''
 
         if self.closed:
+            if self.async_pw_transport and self.flag_eof:
+                # Not closed by the user: the asyncio transport closes its
+                # pipe (this object) when it reads EOF. Keep reporting EOF.
+                raise EOF('End Of File (EOF). Closed by the asyncio transport.')
             raise ValueError('I/O operation on closed file.')
 
         if self.use_poll:
